@@ -1,8 +1,14 @@
 (* BiffSst.v — property C12: XLS (BIFF8) strings across CONTINUE records and packings.
 
    Part 1  M: faithful executable model of the string readers of /repo/src/xls.rs and of
-              XlsEncoding::decode_to / decode_segment of /repo/src/cfb.rs under code page 1200
-              (UTF-16LE), including what encoding_rs's UTF-16LE decoder does: one-shot per call
+              XlsEncoding::decode_to / decode_segment of /repo/src/cfb.rs with the decoder a BIFF8
+              workbook is read with: UTF-16LE (XlsEncoding::from_codepage(1200), the initial value
+              of `encoding` in parse_workbook with force_codepage = None).  Since the fix of audit-2
+              finding XLS-1 the CodePage record (0x0042) no longer replaces that decoder under a
+              BIFF8 BOF — BIFF8 strings are Unicode whatever the record says ([MS-XLS] 2.5.240,
+              2.5.293, 2.5.294) — so the model holds for EVERY value of the record (before the fix
+              it held for 1200 only and the model answered E_UNMODELLED otherwise: exactly where the
+              code was wrong).  Includes what encoding_rs's UTF-16LE decoder does: one-shot per call
               (decode_to) and streaming over the segments of one string (read_dbcs), with
               replacement of lone surrogates.  Code as of the hardening commits (errors instead of
               panics on malformed input) plus the fix that lets read_dbcs use one decoder per
@@ -123,7 +129,9 @@ Definition enc_decode (bs : bytes) : list N := utf16_sm false bs None 0.
 
 (** ** cfb.rs XlsEncoding *)
 
-(* XlsEncoding::high_byte for UTF_16LE (neither UTF_8 nor single byte): None becomes Some(false) *)
+(* XlsEncoding::high_byte for UTF_16LE, the decoder of every BIFF8 workbook: None becomes Some(false)
+   (since the fix of audit-2 finding XLS-6b for UTF_16LE only: under a code page — BIFF5 byte
+   strings, outside this model — the bytes go to the code page's decoder as they are) *)
 Definition high_byte_cp1200 (hb : option bool) : bool :=
   match hb with Some b => b | None => false end.
 
@@ -394,10 +402,16 @@ Definition records (stream : bytes) : list (outcome rec_item) :=
 
 (** ** the string-carrying part of Xls::parse_workbook (reduced)
 
-   Only what decides sheet names and text cells is modelled: BoundSheet8, SST, FilePass, BOF and
+   What decides sheet names and text cells is modelled: BoundSheet8, SST, FilePass, BOF and
    CodePage in the globals; LABELSST, LABEL, FORMULA (position only) and STRING in a sheet
-   substream.  Record kinds whose handling could fail or matter and that are not modelled make
-   the model answer [Err E_UNMODELLED]; the generators never emit them. *)
+   substream.  The arms that cannot change a string and fail only on a short record are modelled
+   by that check (globals: Date1904, Format, XF, ExternSheet, RRTabId; sheet: Dimensions), so that
+   real workbooks whose cells are all text (tests/sheet_name_parsing.xls) are inside the model.
+   The remaining record kinds whose handling could fail or matter (Lbl; Number, BoolErr, RK, MulRk,
+   MergeCells, a FORMULA other than the generators' stub) make the model answer
+   [Err E_UNMODELLED]; the generators never emit them, and the check lists the repository fixtures
+   that hit them by name.  A BOF that is not BIFF8 is E_UNMODELLED too (BIFF5 byte strings under a
+   code page are outside C12). *)
 Definition wb_result := (list (N * list N) * list (list N))%type.   (* sheets (pos, name), strings *)
 
 Fixpoint wb_globals (recs : list (outcome rec_item)) (sheets : list (N * list N))
@@ -410,9 +424,10 @@ Fixpoint wb_globals (recs : list (outcome rec_item)) (sheets : list (N * list N)
   | Ok (t, d, c) :: rest =>
     if t =? 47 then Err E_PASSWORD                               (* 0x002F FilePass *)
     else if t =? 66 then                                         (* 0x0042 CodePage *)
-      if len d <? 2 then Err E_LEN else
-      do cp <- read_u16 d;
-      if cp =? 1200 then wb_globals rest sheets strings else Err E_UNMODELLED
+      (* `if force_codepage.is_none() && !matches!(biff, Biff::Biff8) { encoding = .. }`: biff is
+         Biff8 here (its initial value; a BOF of another version has answered E_UNMODELLED), so
+         the record is length-checked and otherwise without effect, whatever its value *)
+      if len d <? 2 then Err E_LEN else wb_globals rest sheets strings
     else if t =? 2057 then                                       (* 0x0809 BOF *)
       if len d <? 2 then Err E_LEN else                          (* parse_bof *)
       do v <- read_u16 (take 2 d);
@@ -424,9 +439,17 @@ Fixpoint wb_globals (recs : list (outcome rec_item)) (sheets : list (N * list N)
       do s <- parse_sst (d, conts_of c);
       wb_globals rest sheets s
     else if t =? 10 then Ok (sheets, strings)                    (* 0x000A EOF *)
-    else if (t =? 317) || (t =? 34) || (t =? 1054) || (t =? 224) || (t =? 24) || (t =? 23)
-            || (t =? 235)
-    then Err E_UNMODELLED        (* RRTabId, Date1904, Format, XF, Lbl, ExternSheet, MsoDrawingGroup *)
+    else if t =? 34 then                                         (* 0x0022 Date1904 *)
+      if len d <? 2 then Err E_LEN else wb_globals rest sheets strings
+    else if t =? 1054 then                                       (* 0x041E Format: parse_format *)
+      if len d <? 5 then Err E_LEN else wb_globals rest sheets strings
+    else if t =? 224 then                                        (* 0x00E0 XF: parse_xf *)
+      if len d <? 4 then Err E_LEN else wb_globals rest sheets strings
+    else if t =? 23 then                                         (* 0x0017 ExternSheet *)
+      if len d <? 2 then Err E_LEN else wb_globals rest sheets strings
+    else if t =? 24 then Err E_UNMODELLED                        (* 0x0018 Lbl: C16 / C14 *)
+    (* 0x013D RRTabId only reserves; 0x00EB MsoDrawingGroup is an arm of the `picture` feature
+       only (the harness builds without it) and cannot fail with it *)
     else wb_globals rest sheets strings
   end.
 
@@ -451,33 +474,47 @@ Definition string_arm (d : bytes) (c : option (list bytes)) : outcome (list N) :
   | None => parse_string d
   end.
 
+(* [depth] = substreams open at the record (`let mut depth = 0usize`, fix of audit-2 finding XLS-2):
+   the sheet's own BOF makes it 1; a BOF nested in the sheet (the chart of an embedded chart object,
+   [MS-XLS] 2.1.7.20.5 OBJECTS) makes it 2 and more: there an EOF closes one substream and every
+   other record is skipped; only an EOF at depth <= 1 ends the sheet.
+     match r.typ { 0x0809 => { depth += 1; continue }
+                   0x000A if depth > 1 => { depth -= 1; continue }
+                   _ if depth > 1 => continue,  _ => () } *)
 Fixpoint wb_sheet (recs : list (outcome rec_item)) (strings : list (list N)) (fmla_pos : N * N)
-         (cells : list scell) : outcome (list scell) :=
+         (cells : list scell) (depth : N) : outcome (list scell) :=
   match recs with
   | [] => Ok cells
   | Err e :: _ => Err e
   | Panic :: _ => Panic
   | OutOfFuel :: _ => OutOfFuel
   | Ok (t, d, c) :: rest =>
-    if t =? 253 then                                             (* 0x00FD LabelSst *)
+    if t =? 2057 then wb_sheet rest strings fmla_pos cells (depth + 1)   (* 0x0809 BOF *)
+    else if 1 <? depth then
+      wb_sheet rest strings fmla_pos cells (if t =? 10 then depth - 1 else depth)
+    else if t =? 253 then                                             (* 0x00FD LabelSst *)
       do c <- parse_label_sst d strings;
-      wb_sheet rest strings fmla_pos (cells ++ match c with Some x => [x] | None => [] end)
+      wb_sheet rest strings fmla_pos (cells ++ match c with Some x => [x] | None => [] end) depth
     else if t =? 516 then                                        (* 0x0204 Label *)
       do c <- parse_label d;
-      wb_sheet rest strings fmla_pos (cells ++ match c with Some x => [x] | None => [] end)
+      wb_sheet rest strings fmla_pos (cells ++ match c with Some x => [x] | None => [] end) depth
     else if t =? 519 then                                        (* 0x0207 String *)
       do s <- string_arm d c;
-      wb_sheet rest strings fmla_pos (cells ++ [(fst fmla_pos, snd fmla_pos, s)])
+      wb_sheet rest strings fmla_pos (cells ++ [(fst fmla_pos, snd fmla_pos, s)]) depth
     else if t =? 6 then                                          (* 0x0006 Formula *)
       if len d <? 20 then Err E_LEN else
       if formula_is_string_stub d then
         do row <- read_u16 d; do col <- read_u16 (drop 2 d);
-        wb_sheet rest strings (row, col) cells
+        wb_sheet rest strings (row, col) cells depth
       else Err E_UNMODELLED
     else if t =? 10 then Ok cells                                (* 0x000A EOF *)
-    else if (t =? 512) || (t =? 515) || (t =? 517) || (t =? 638) || (t =? 189) || (t =? 229)
-    then Err E_UNMODELLED        (* Dimensions, Number, BoolErr, RK, MulRk, MergeCells *)
-    else wb_sheet rest strings fmla_pos cells
+    else if t =? 512 then                                        (* 0x0200 Dimensions *)
+      (* parse_dimensions: 10 or 14 bytes, else XlsError::Len; the result only sizes a capped
+         reservation *)
+      if (len d =? 10) || (len d =? 14) then wb_sheet rest strings fmla_pos cells depth else Err E_LEN
+    else if (t =? 515) || (t =? 517) || (t =? 638) || (t =? 189) || (t =? 229)
+    then Err E_UNMODELLED        (* Number, BoolErr, RK, MulRk, MergeCells *)
+    else wb_sheet rest strings fmla_pos cells depth
   end.
 
 (* the second loop of parse_workbook: one pass per BoundSheet8 entry, from its stream position *)
@@ -487,7 +524,7 @@ Fixpoint wb_sheets (stream : bytes) (strings : list (list N)) (l : list (N * lis
   | [] => Ok []
   | (pos, name) :: l' =>
     do sh <- get_from stream pos;                                (* stream.get(pos..).ok_or(EoStream) *)
-    do cells <- wb_sheet (records sh) strings (0, 0) [];
+    do cells <- wb_sheet (records sh) strings (0, 0) [] 0;
     do tl <- wb_sheets stream strings l';
     Ok ((name, cells) :: tl)
   end.
@@ -634,8 +671,15 @@ Definition frame_sst (st : rstate) : bytes :=
 Definition frame_rec (t : N) (st : rstate) : bytes :=
   frame t (fst st) ++ flat_map (frame 60) (snd st).
 
-(* a whole Workbook stream: globals (BOF, CodePage, one BoundSheet8 per sheet, SST + CONTINUEs, EOF)
-   followed by one substream per sheet (BOF, text cells, EOF) *)
+(* a whole Workbook stream: globals (BOF, [CodePage], one BoundSheet8 per sheet, SST + CONTINUEs,
+   EOF) followed by one substream per sheet (BOF, text cells, EOF).
+   The CodePage record ([MS-XLS] 2.4.52) is a choice of the writer: any 16-bit value (Excel writes
+   1200 into BIFF8 files, JExcelApi 1252, localised writers 932 / 936 / 949 / 950 / 125x, some
+   65001; values no decoder table knows are just as legal) or no record at all (None). *)
+Definition codepage_rec (cp : option N) : bytes :=
+  match cp with Some v => frame 66 (le16 v) | None => [] end.
+Definition legal_codepage (cp : option N) : bool :=
+  match cp with Some v => v <? 65536 | None => true end.
 Inductive cell_spec :=
 | CSst (row col isst : N)                          (* LABELSST *)
 | CLabel (row col : N) (hb : bool) (us : list N)   (* LABEL *)
@@ -666,12 +710,14 @@ Fixpoint boundsheets (pos : N) (shs : list sheet_spec) : bytes :=
     frame 133 (boundsheet_body pos 0 0 (sh_hb sh) (sh_name sh))
     ++ boundsheets (pos + len (sheet_stream sh)) r
   end.
-Definition globals_stream (pos0 : N) (strs : list ustring) (lay : layout)
+Definition globals_stream (cp : option N) (pos0 : N) (strs : list ustring) (lay : layout)
            (shs : list sheet_spec) : bytes :=
-  frame 2057 (bof_body 5) ++ frame 66 (le16 1200) ++ boundsheets pos0 shs
+  frame 2057 (bof_body 5) ++ codepage_rec cp ++ boundsheets pos0 shs
   ++ frame_sst (sst_encode strs lay) ++ frame 10 [].
-Definition workbook_stream (strs : list ustring) (lay : layout) (shs : list sheet_spec) : bytes :=
-  globals_stream (len (globals_stream 0 strs lay shs)) strs lay shs ++ flat_map sheet_stream shs.
+Definition workbook_stream (cp : option N) (strs : list ustring) (lay : layout)
+           (shs : list sheet_spec) : bytes :=
+  globals_stream cp (len (globals_stream cp 0 strs lay shs)) strs lay shs
+  ++ flat_map sheet_stream shs.
 
 (* what the workbook says: per sheet its name (NULs removed) and its text cells *)
 Definition cell_text (tbl : list (list N)) (c : cell_spec) : list scell :=
@@ -762,9 +808,11 @@ Definition legal_cell (c : cell_spec) : bool :=
   end.
 Definition legal_sheet (sh : sheet_spec) : bool :=
   legal_short_string (sh_hb sh) (sh_name sh) && forallb legal_cell (sh_cells sh).
-Definition legal_workbook (strs : list ustring) (lay : layout) (shs : list sheet_spec) : bool :=
+Definition legal_workbook (cp : option N) (strs : list ustring) (lay : layout)
+           (shs : list sheet_spec) : bool :=
   legal_layout strs lay
   && (len (fst (sst_encode strs lay)) <=? 65535)
   && forallb (fun c => len c <=? 65535) (snd (sst_encode strs lay))
   && forallb legal_sheet shs
-  && (len (workbook_stream strs lay shs) <=? 4294967295).
+  && (len (workbook_stream cp strs lay shs) <=? 4294967295)
+  && legal_codepage cp.
